@@ -25,6 +25,9 @@ func newWhereNode(et *ExecutingTask, n *pipeline.WhereNode, d NodeDiagnostic) (w
 		w:    n,
 	}
 
+	if n.Lambda == nil {
+		return nil, errors.New("nil expression passed to WhereNode")
+	}
 	expr, err := stateful.NewExpression(n.Lambda.Expression)
 	if err != nil {
 		return nil, fmt.Errorf("Failed to compile expression in where clause: %v", err)
@@ -33,9 +36,6 @@ func newWhereNode(et *ExecutingTask, n *pipeline.WhereNode, d NodeDiagnostic) (w
 	wn.scopePool = stateful.NewScopePool(ast.FindReferenceVariables(n.Lambda.Expression))
 
 	wn.runF = wn.runWhere
-	if n.Lambda == nil {
-		return nil, errors.New("nil expression passed to WhereNode")
-	}
 	return
 }
 
